@@ -5,7 +5,7 @@ set -u
 wt="$1"; n="$2"; d="$wt/mutants/$n"
 export GOFLAGS=-mod=mod GOPROXY=off GOSUMDB=off GOTOOLCHAIN=local
 cd "$wt" || exit 3
-git checkout -q -- . ; find . -name zz_demo_test.go -not -path "./mutants/*" -delete
+git checkout -q --detach main 2>/dev/null; git checkout -q -- . ; find . -name zz_demo_test.go -not -path "./mutants/*" -delete
 pk=$(grep -m1 "^package" $d/zz_demo_test.go | awk '{print $2}')
 case "$pk" in
   packet) dir=. ;;
@@ -20,7 +20,14 @@ patched=$(timeout 600 go test -vet=off -count=1 -timeout 5m -run "$tests" $dir 2
 if [ -n "$race" ] && echo "$patched" | grep -q "^ok"; then patched=$(timeout 900 go test -race -vet=off -count=1 -timeout 10m -run "$tests" $dir 2>&1 | tail -1); fi
 rm -f $dir/zz_demo_test.go
 runpat=""; [ "$pk" = dns_naming ] && runpat="-run TestDNSHandler_ProcessDNS|TestMDNSHandler_PTR|TestMDNSHandler_Sonos"
-existing=$(timeout 1200 go test -vet=off -count=1 -timeout 15m $runpat $dir 2>&1 | tail -1)
+existing=""; failed=""
+for attempt in 1 2 3; do
+  out=$(timeout 1200 go test -vet=off -count=1 -timeout 15m $runpat $dir 2>&1)
+  existing=$(echo "$out" | tail -1)
+  echo "$existing" | grep -q "^ok" && break
+  failed="$failed [attempt $attempt failed: $(echo "$out" | grep -o '^--- FAIL: [A-Za-z0-9_/]*' | sort -u | paste -sd, )]"
+done
+existing="$existing$failed"
 build=$(go build ./... 2>&1 | tail -1)
 git checkout -q -- . ; git checkout -q handlers/dhcp4_spoofer/testDHCPConfig.yml 2>/dev/null
 echo "CONFIRM $(basename $wt)/$n pkg=$pk | clean-demo: $clean | patched-demo: $patched | existing(patched): $existing | build: ${build:-ok}"
